@@ -2,7 +2,7 @@
 
 The REAL aioftp.Server runs on simnet with a fault-injecting backend: a subclass of the shipped backend class
 in which the INNERMOST function of every operation (below the class's own decorator stack, which is rebuilt
-around it unchanged - so `universal_exception` is exercised exactly where the source puts it) raises OSError
+around it unchanged - so `universal_exception` is exercised exactly where the source puts it) raises an exception (OSError, ValueError or RuntimeError)
 at the k-th backend call of the run.  Scripts x every k (single) and pairs (double) are compared with the
 extracted Model/Faults.v (instantiated with the facts regenerated from the source) and judged by the
 property's own oracle (451, no 2xx, data EOF, follow-ups on the same and on a second session).
@@ -46,7 +46,7 @@ LEVEL_NOTE = (
     "not use universal_exception."
 )
 TRUSTED = [
-    "fault injector: types.FunctionType re-closure of the shipped methods' decorator stacks around a leaf that raises OSError",
+    "fault injector: types.FunctionType re-closure of the shipped methods' decorator stacks around a leaf that raises OSError / ValueError / RuntimeError",
     "simnet: EOF / open-transport ledger stands for what a TCP peer would observe",
 ]
 ASSUMPTIONS = [
@@ -61,6 +61,10 @@ A, B = 0, 1
 DC = ftpsim.DATACONN
 F4_KEY = "c13-open-fault-leaves-data-connection-open"
 F4_ID = "F04-open-fault-leaves-data-connection-open"
+
+# what the injected failure is: the property speaks of the backend FAILING, whatever it raises
+KINDS = {"os": OSError, "value": ValueError, "runtime": RuntimeError}
+KIND_NAMES = ("os", "value", "runtime")
 
 OPS = ("exists", "is_dir", "is_file", "mkdir", "rmdir", "unlink", "stat", "_open", "seek", "write", "read", "close", "rename")
 
@@ -88,16 +92,17 @@ def rebuild(fn, leaf):
     return g
 
 
-def fault_factory(base, plan, log):
+def fault_factory(base, plan, log, kind="os"):
     """subclass of `base` whose k-th backend call (k in plan, counted over the whole run, all sessions) raises
-    OSError from INSIDE the operation; log gets (operation, raised) per call"""
+    KINDS[kind] from INSIDE the operation; log gets (operation, raised) per call"""
+    exc = KINDS[kind]
 
     def tick(name):
         i = len(log)
         hit = i in plan
         log.append((name, hit))
         if hit:
-            raise OSError(f"injected fault at backend call {i} ({name})")
+            raise exc(f"injected fault at backend call {i} ({name})")
         return i
 
     def leaf_for(name):
@@ -198,7 +203,7 @@ class Sess(ftpsim.Session):
         return res
 
 
-def run_impl(events, plan, backend="memory"):
+def run_impl(events, plan, backend="memory", kind="os"):
     """-> (observations per event, final tree, backend call log)"""
     tmp = None
     if backend != "memory":
@@ -210,7 +215,7 @@ def run_impl(events, plan, backend="memory"):
 
         async def main(net):
             server = ftpsim.make_server(USERS, TREE, backend, tmp, wait_future_timeout=1, block_size=BLK)
-            server.path_io_factory.factory = fault_factory(server.path_io_factory.factory, plan, log)
+            server.path_io_factory.factory = fault_factory(server.path_io_factory.factory, plan, log, kind)
             await server.start("127.0.0.1", ftpsim.PORT)
             sess = {}
             for who, verb, arg, payload in events:
@@ -309,9 +314,9 @@ def listed_names(buf, verb):
 
 
 # ---------------------------------------------------------------- model vs implementation
-def compare(ctx, name, events, plan, mo, obs, tree, backend):
+def compare(ctx, name, events, plan, mo, obs, tree, backend, kind="os"):
     steps = [decode_step(s) for s in mo[3]]
-    rep = {"script": name, "plan": sorted(plan), "backend": backend}
+    rep = {"script": name, "plan": sorted(plan), "backend": backend, "raises": kind}
     leaked = 0
     pend = {A: False, B: False}
     for i, ((who, verb, arg, payload), m, o) in enumerate(zip(events, steps, obs)):
@@ -364,8 +369,8 @@ def compare(ctx, name, events, plan, mo, obs, tree, backend):
 
 
 # ---------------------------------------------------------------- the property, on the implementation alone
-def oracle(ctx, name, events, plan, obs, backend):
-    rep = {"script": name, "plan": sorted(plan), "backend": backend}
+def oracle(ctx, name, events, plan, obs, backend, kind="os"):
+    rep = {"script": name, "plan": sorted(plan), "backend": backend, "raises": kind}
     first_follow = n_main(name)
     prev = {}
     for i, ((who, verb, arg, payload), o) in enumerate(zip(events, obs)):
@@ -436,11 +441,11 @@ def plans_for(rng, n, thorough):
     return out
 
 
-def check_case(ctx, name, events, plan, mo, backend):
-    obs, tree, log = run_impl(events, plan, backend)
+def check_case(ctx, name, events, plan, mo, backend, kind="os"):
+    obs, tree, log = run_impl(events, plan, backend, kind)
     ctx.traces_impl += 1
-    ok = compare(ctx, name, events, plan, mo, obs, tree, backend)
-    oracle(ctx, name, events, plan, obs, backend)
+    ok = compare(ctx, name, events, plan, mo, obs, tree, backend, kind)
+    oracle(ctx, name, events, plan, obs, backend, kind)
     return ok, obs
 
 
@@ -453,7 +458,8 @@ def correspondence(ctx, budget=None):
         "and with the data connection made, followed by probes on the same session (PWD, fresh PASV + LIST) and on the second one "
         "(PWD, PASV + RETR); block size 4 so that transfers make several read/write calls. For each script the fault-free run counts "
         "the N backend calls of the whole run; then every single fault k < N and double faults (quick: (k,k+1) and (k,random); thorough: "
-        "all pairs) are run on the real server with the fault-injecting backend: MemoryPathIO for all, PathIO (tmpdir) and AsyncPathIO "
+        "all pairs) are run on the real server with the fault-injecting backend (the injected exception rotates over OSError / ValueError / RuntimeError; "
+        "thorough: every single fault with each class on the in-memory backend): MemoryPathIO for all, PathIO (tmpdir) and AsyncPathIO "
         "for subsets. Compared with the model per command: reply codes, backend call sequence with raise marks, data connection "
         "taken / closed (client-side EOF after 30 virtual seconds), bytes / listing received, session probe, server-side open data "
         "transports, final tree. Non-trivial = distinct (backend, script, fault plan)."
@@ -477,15 +483,21 @@ def correspondence(ctx, budget=None):
         if budget:
             plans = plans[:1] + rng.sample(plans[1:], min(len(plans) - 1, budget))
         for p in plans:
-            jobs.append((backend, name, events, p))
-    model_out = ctx.model([model_case(ev, p) for _, _, ev, p in jobs])
+            # the exception class rotates over the positions; thorough: every single fault with every class
+            kind = KIND_NAMES[(sum(p) + len(jobs)) % 3] if p else "os"
+            jobs.append((backend, name, events, p, kind))
+            if thorough and len(p) == 1 and backend == "memory":
+                jobs.extend((backend, name, events, p, k2) for k2 in KIND_NAMES if k2 != kind)
+    model_out = ctx.model([model_case(ev, p) for _, _, ev, p, _ in jobs])
     xcheck = []
     sites = {}
-    for (backend, name, events, plan), mo in zip(jobs, model_out):
-        ctx.case((backend, name, tuple(sorted(plan))))
+    for (backend, name, events, plan, kind), mo in zip(jobs, model_out):
+        ctx.case((backend, name, tuple(sorted(plan)), kind))
         ctx.count("backend_" + backend)
         ctx.count("faults_%d" % len(plan))
-        ok, obs = check_case(ctx, name, events, plan, mo, backend)
+        if plan:
+            ctx.count("raises_" + KINDS[kind].__name__)
+        ok, obs = check_case(ctx, name, events, plan, mo, backend, kind)
         for o in obs:
             for m, h in o["calls"]:
                 if h:
@@ -531,11 +543,11 @@ def replay(ctx, data):
     if "script" not in r:
         print(data)
         return False
-    name, plan, backend = r["script"], set(r["plan"]), r.get("backend", "memory")
+    name, plan, backend, kind = r["script"], set(r["plan"]), r.get("backend", "memory"), r.get("raises", "os")
     events = script_events(name)
     mo = ctx.model([model_case(events, plan)])[0]
     before = len(ctx.violations) + len(ctx.disagreements) + len(ctx.known_hits)
-    ok, obs = check_case(ctx, name, events, plan, mo, backend)
+    ok, obs = check_case(ctx, name, events, plan, mo, backend, kind)
     for e, o in zip(events, obs):
         if e[1] != DC:
             print("AB"[e[0]], e[1], e[2], "->", o["codes"], [m + ("!" if h else "") for m, h in o["calls"]],
